@@ -26,6 +26,11 @@ EVENTS = ['COMPLETE oldest', 'COMPLETE newest', 'TICK', 'TICK new-data', 'SUBMIT
           'RESET', 'WORK queue', 'WORK doing', 'FOREIGN', 'SETTLE', 'WORK busy', 'SUBMIT-API todo', 'SUBMIT-API crew', 'VERIFY ok', 'VERIFY fail', 'SUBMIT-API todo late-git-failure']
 
 
+def strongest_of(ps):
+    """the lattice of the statement (NOW > CREW > DOING > TODO), not the code's Priority.max"""
+    return min(ps, key=PRIOS.index)
+
+
 def cond(p, level):
     return {Priority.NOW: True, Priority.CREW: 'b' not in level, Priority.DOING: 'd' not in level, Priority.TODO: 'q' not in level}[p]
 
@@ -86,6 +91,7 @@ def hist_body(prop, start, k, sel):
             before = w.snapshot()
             lvl_before = w.level
             active_before = f.is_pipeline_active()
+            owed_before = (len(accepted), len(pending_api))
             if name.startswith('COMPLETE'):
                 if not w.threads.pending or (name.endswith('newest') and len(w.threads.pending) < 2):
                     return
@@ -203,14 +209,14 @@ def hist_body(prop, start, k, sel):
                 rt.nontrivial()
                 rt.require(accepted, 'c12:update-without-submission', 'reload triggered although no submission is waiting')
                 if accepted:
-                    strongest = Priority.max(*accepted)
+                    strongest = strongest_of(accepted)
                     rt.require(cond(strongest, level), 'c12:update-too-early', f'reload triggered while work={sorted(level)} but the strongest request {strongest.name} needs its condition to hold')
                     rt.require(len(new_updates) == 1, 'c12:update-twice', 'reload triggered more than once for one set of submissions')
                 accepted = []
-            if prop == 'C12' and accepted and Priority.max(*accepted) == Priority.NOW:
+            if prop == 'C12' and accepted and strongest_of(accepted) == Priority.NOW:
                 rt.fail('c12:now-not-immediate', 'a NOW request was accepted but the reload did not start in the same event')
-            if w.snapshot() == before and w.level == lvl_before and not new_updates and name != 'TICK new-data':
-                return
+            if w.snapshot() == before and w.level == lvl_before and not new_updates and name != 'TICK new-data' and owed_before == (len(accepted), len(pending_api)):
+                return  # nothing moved, in the pipeline or in what it owes to accepted submissions
     # ---- drain: every poller condition holds, every background job completes ----
     with rt.island():
         rt.note('DRAIN')
